@@ -2,7 +2,7 @@
    Property theorems only; the model is Bac.Net (no proofs), the proofs live in Bac.NetFacts.
    Local theorems hold for EVERY node state, adapter, and arriving frame of the model.  `Fwd` marks the copies made
    by the forwarding section of process_npdu (netservice.py:607-676), `Tx` every other frame a node emits. *)
-From Bac Require Import Base Net NetFacts NetTerm NetTerm2 NetReply NetOnce NetRoute.
+From Bac Require Import Base Net NetFacts NetTerm NetTerm2 NetReply NetOnce NetRoute NetArrive.
 Open Scope N_scope.
 
 (* each router hop lowers the hop count by exactly one, and keeps payload and message type *)
@@ -247,7 +247,7 @@ Theorem C06_tree_unicast_once_partial_last_router : forall n i ai inet src dst p
   n_msg p = None -> n_dadr p = Some (DStation d dm) -> n_hop p <> 0 ->
   (forall snet sm, n_sadr p = Some (snet, sm) -> find_net n (Some snet) = None) ->
   find_net n (Some d) = Some j -> j <> i ->
-  optN_eqb (Some d) (a_net ai) = false -> optN_eqb (Some d) (a_net la) = false ->
+  optN_eqb (Some d) (a_net ai) = false -> not_for_me la d dm = true ->
   process_npdu n i src dst p =
     (learned n ai src p,
      [Fwd j (LStation dm) (mkNpdu None (Some (fwd_sadr inet src p)) (n_hop p - 1) None (n_data p))]).
@@ -262,6 +262,22 @@ Theorem C06_tree_unicast_once_partial_station : forall n a src dst p sn sm,
   process_npdu n 0 src dst p = (learned n a src p, [Up (ARS sn sm) (ldest_to_addr dst) (n_data p)]).
 Proof. exact station_hands_up. Qed.
 Print Assumptions C06_tree_unicast_once_partial_station.
+
+(* ... and their composition, by induction on a route of ANY length: if the frame alone in flight follows a
+   consistent route (`arrives`: at every hop exactly one member of the LAN has the link address; each router on the
+   way has the destination network directly connected or a cached next hop whose port leads to the next LAN; the
+   SADR network is not directly connected to any router on the way and differs from the destination network; the
+   hop count suffices; the last LAN has the addressed station with an application), then the run ends with an empty
+   queue, stays there for ever, and exactly one PDU has been handed up: the unchanged payload, at the addressed
+   station, showing the originator's network and address.  This is C06_tree_unicast_once with "consistent route"
+   in place of "loop-free topology with warm caches"; that the latter implies the former (graph theory on the
+   unique tree path) is what remains unproved. *)
+Theorem C06_tree_unicast_once_partial : forall w f tgt s dd x,
+  queue w = [f] -> arrives (lans w) (nodes w) f tgt s dd x ->
+  exists k osn, queue (run k w) = [] /\ (forall k', (k <= k')%nat -> run k' w = run k w) /\
+                trace (run k w) = osn ++ trace w /\ oups osn = [OUp tgt s dd x].
+Proof. exact route_arrives_exactly_once. Qed.
+Print Assumptions C06_tree_unicast_once_partial.
 
 (* C06_reply_routable is FALSE of the code when the originator is an application on a router: router with ports
    (net 1, net 2), local adapter = net 2, broadcasts globally; the station on net 1 is shown the router's net-1
@@ -366,6 +382,29 @@ Definition tree4 : world :=
     [(1, [(0, 0); (2, 0)]%nat); (2, [(0, 1); (3, 0)]%nat); (3, [(0, 2); (1, 0); (4, 0)]%nat);
      (4, [(1, 1); (5, 0); (6, 0)]%nat)]
     [] [].
+
+(* the route hypothesis of C06_tree_unicast_once_partial is satisfiable: on tree4 the unicast from the station on
+   network 1 to station (4, [2]) follows a consistent route R0 -> R1 -> station *)
+Ltac acc := unfold acceptor; split; [reflexivity|]; split; [apply nodupb_sound; vm_compute; reflexivity|];
+            split; [vm_compute; auto 6|]; split; [reflexivity|eexists; reflexivity].
+Example C06_tree_unicast_route_example :
+  let w := submit tree4 2 (ARS 4 [2]) [16; 99; 1] in
+  exists f, queue w = [f] /\ arrives (lans w) (nodes w) f 6 (ARS 1 [1]) (ALS [2]) [16; 99; 1].
+Proof.
+  eexists. split; [vm_compute; reflexivity|]. vm_compute.
+  eapply arr_router with (who := 0%nat) (i := 0%nat) (inet := 1) (d := 4) (dm := [2]) (j := 2%nat) (m' := [11])
+                         (lan' := 3) (mj := [10]); [acc | ..]; try reflexivity.
+  - discriminate.
+  - intros snet sm E. discriminate E.
+  - vm_compute.
+    eapply arr_last_router with (who := 1%nat) (i := 0%nat) (inet := 3) (d := 4) (dm := [2]) (j := 1%nat)
+                                (lan' := 4) (mj := [11]); [acc | ..]; try reflexivity.
+    + discriminate.
+    + intros snet sm E. inversion E; subst. reflexivity.
+    + discriminate.
+    + vm_compute.
+      eapply arr_station with (who := 6%nat); [acc | ..]; reflexivity.
+Qed.
 
 Example C06_tree_unicast_example :
   let w := run 100 (submit tree4 2 (ARS 4 [2]) [16; 99; 1]) in
